@@ -149,18 +149,6 @@ pub proof fn lemma_c15_reassemble(h: V1Header)
     }
 }
 
-/// what `Display for v1::Addresses` prints (the impl itself is checked bounded by the Kani
-/// harnesses `fmt_*`; core::fmt is outside Verus)
-pub open spec fn v1_display(a: V1Addresses) -> Seq<u8> {
-    match a {
-        V1Addresses::Unknown => b_proxy() + sp() + b_unknown() + b_crlf(),
-        V1Addresses::Tcp4(x) => tcp4_line(display_ipv4(x.source_address), display_ipv4(x.destination_address),
-                                          display_u16(x.source_port), display_u16(x.destination_port)),
-        V1Addresses::Tcp6(x) => tcp6_line(display_ipv6(x.source_address), display_ipv6(x.destination_address),
-                                          display_u16(x.source_port), display_u16(x.destination_port)),
-    }
-}
-
 // [props: C08]
 /// the canonical line of every address value is a well-formed line of at most 107 bytes (104 for
 /// TCP6) that the text entry point accepts with exactly that value; hence distinct values never
